@@ -386,6 +386,12 @@ def _convert_solution(qv, S, truth, kind, opt, ctx, classes, rec):
                     if cs[l] not in domain or cs[l] != own:
                         raise Violation("convert_solution_assignment/%s_form_%s" % ("spin" if form_spin else "boolean", cont),
                                         "variable %r (integer %d) should be %r; %s" % (l, i, own, where))
+                # the flag only matters for all-ones solutions (documented): omit it when the form is unambiguous
+                if any(v == (-1 if form_spin else 0) for v in vals):
+                    cs2 = lib(S.convert_solution, sol, what="convert_solution(no flag)")
+                    if cs2 != cs:
+                        raise Violation("convert_solution_noflag/%s_form_%s" % ("spin" if form_spin else "boolean", cont),
+                                        "without the flag (form unambiguous) -> %r; %s" % (cs2, where))
                 val = ref.ref_value(truth, cs)
                 tol = 0 if ctx.exact else 1e-9 * scale
                 if abs(val - tE[r]) > tol:
